@@ -85,6 +85,20 @@ def decodeText (enc : String) (bs : Bytes) : Option String :=
     | _ => decodeUtf32 true bs
   | _ => none
 
+/-- `str.encode(codec)` for ASCII-only text (all a enumeration key needs here); `none` = not modelled. The codec is
+    one with an explicit byte order (`StrEnc.codec` never yields a bare `UTF-16` / `UTF-32`). -/
+def encodeAsciiText (codec : String) (s : String) : Option Bytes :=
+  if !(s.toList.all (fun c => c.toNat < 128)) then none
+  else
+    let cs := s.toList.map (fun c => UInt8.ofNat c.toNat)
+    match codec with
+    | "US-ASCII" | "ISO-8859-1" | "Windows-1252" | "UTF-8" => some cs
+    | "UTF-16LE" => some (cs.flatMap (fun c => [c, 0]))
+    | "UTF-16BE" => some (cs.flatMap (fun c => [0, c]))
+    | "UTF-32LE" => some (cs.flatMap (fun c => [c, 0, 0, 0]))
+    | "UTF-32BE" => some (cs.flatMap (fun c => [0, 0, 0, c]))
+    | _ => none
+
 /-- First occurrence of `needle` in `hay` at a byte offset that is a multiple of `w` (the code-unit width of the
     encoding: a terminator is a *character*, so in UTF-16 / UTF-32 it can only start on a 2- / 4-byte boundary).
     `w = 1` is `haystack.index(needle)`. -/
